@@ -248,6 +248,68 @@ pub fn run(tier: &str) {
     samples.push(json!({"family": "ascii-sweep", "string": "/ab^cd/topic", "reference": "Reject"}));
     fams.push(json!({"family": "ascii-sweep", "cases": n2b}));
 
+    // family 2c: every Unicode scalar value inside either component (case folding, normalisation and
+    // "word character" classes differ from the ASCII rule only outside ASCII)
+    let mut n2c = 0u64;
+    let (mut either_accepted, mut either_rejected) = (0u64, 0u64);
+    let mut either_examples = (String::new(), String::new());
+    let pats: &[&str] = if thorough {
+        &["/{c}bcd/topic", "/ab{c}cd/topic", "/abc{c}/topic", "/names/{c}opic", "/names/to{c}ic", "/names/topi{c}", "/{c}{c}{c}/{c}{c}{c}"]
+    } else {
+        &["/ab{c}cd/topic", "/names/to{c}ic"]
+    };
+    for cp in 0x80u32..=0x10FFFF {
+        let c = match char::from_u32(cp) {
+            Some(c) => c,
+            None => continue,
+        };
+        let cs = c.to_string();
+        for pat in pats {
+            let s = pat.replace("{c}", &cs);
+            evaluations += 1;
+            n2c += 1;
+            match check_string(&s) {
+                Ok(v) => {
+                    by_verdict[v as usize] += 1;
+                    // "letters and digits" can be read as ASCII only or as Unicode alphanumerics;
+                    // whichever reading the implementation follows, it has to follow it uniformly
+                    if v == Verdict::Either {
+                        if TopicName::try_from(s.as_str()).is_ok() {
+                            either_accepted += 1;
+                            if either_examples.0.is_empty() {
+                                either_examples.0 = s.clone();
+                            }
+                        } else {
+                            either_rejected += 1;
+                            if either_examples.1.is_empty() {
+                                either_examples.1 = s.clone();
+                            }
+                        }
+                    }
+                }
+                r => record(&mut rep, "unicode-sweep", &s, r, &mut by_verdict),
+            }
+        }
+    }
+    if either_accepted > 0 && either_rejected > 0 {
+        let s = either_examples.0.clone();
+        record(
+            &mut rep,
+            "unicode-sweep",
+            &s,
+            Err((
+                "accepted-invalid".into(),
+                format!(
+                    "non-ASCII letters and digits are not treated uniformly: {either_accepted} names containing one are accepted (e.g. {:?}) while {either_rejected} are rejected (e.g. {:?}); under either reading of \"letters, digits, '_' and '-'\" one of the two groups is wrong",
+                    either_examples.0, either_examples.1
+                ),
+            )),
+            &mut by_verdict,
+        );
+    }
+    samples.push(json!({"family": "unicode-sweep", "string": "/ab\u{212a}cd/topic", "reference": "Reject"}));
+    fams.push(json!({"family": "unicode-sweep", "cases": n2c, "counted_once_in_distinct": false}));
+
     // family 3: reserved word elsewhere, separators in odd places, multi-byte first characters
     let odd = [
         "/abc/selium", "/abc/seliumx", "//selium/abc", "selium/abc/def", "/abc/def/selium", "/abc//def", "//abc/def", "/abc/def/", "/abc/def//",
@@ -291,7 +353,7 @@ pub fn run(tier: &str) {
         "evaluations": evaluations,
         "distinct_nontrivial": nontrivial,
         "distinct_cases": total_distinct,
-        "rule": "all strings of length <=5 (thorough 6) over a 14-character alphabet (ASCII word chars, separators, whitespace, 2-4 byte characters, connector punctuation, combining mark); all /ns/tp with component lengths {0,1,2,3,4,63,64,65} x 7 fill characters x 7 reserved-word prefixes; every one of the 128 ASCII characters (plus 5 others) at the start / middle / end of either component; 34 hand-picked odd placements; 19x19 component pairs through create()/is_valid(). Every string is compared with a hand-written character-loop reference. distinct = distinct strings/pairs (hash set); non-trivial = accepted under some reading, or of the shape /x/y, or a component pair",
+        "rule": "all strings of length <=5 (thorough 6) over a 14-character alphabet (ASCII word chars, separators, whitespace, 2-4 byte characters, connector punctuation, combining mark); all /ns/tp with component lengths {0,1,2,3,4,63,64,65} x 7 fill characters x 7 reserved-word prefixes; every one of the 128 ASCII characters (plus 5 others) at the start / middle / end of either component; every other Unicode scalar value (1 111 936 of them) in the middle of either component (thorough: at the start / middle / end), where non-ASCII letters and digits may be accepted or rejected but only uniformly; 34 hand-picked odd placements; 19x19 component pairs through create()/is_valid(). Every string is compared with a hand-written character-loop reference. distinct = distinct strings/pairs (hash set); non-trivial = accepted under some reading, or of the shape /x/y, or a component pair",
         "exhaustive": true,
         "reference_verdicts": {"accept": by_verdict[0], "reject": by_verdict[1], "either_reading_allowed": by_verdict[2]},
         "families": fams,
